@@ -43,14 +43,20 @@ class C02(DiffProperty):
                   "reports MissingBuffer and delivers it after ONE mpt_queue_prepare of bytes-to-delimiter+17 and a second mpt_queue_recv; never 'more input', never a "
                   "decoding error), C02_ring_reader_delivers_all (from any reachable reader state between messages whose unread bytes are the frames of ms: |ms| rounds "
                   "deliver exactly ms and empty the ring), C02_ring_to_ring_all (composed with the writer ring); call level C02_stream_delivers_all. "
+                  "Stream glue (mptio): C02_glue_step_refines (every mpt_stream_push / flush / poll / dispatch step of the glue model, with ANY kernel behaviour, is a sequence "
+                  "of ring-level writer and reader operations that keeps the ring invariants and the relation 'bytes accepted by the reader ring + bytes in flight = bytes "
+                  "handed to the transport'), C02_glue_history_safe (every glue history from fresh streams of any capacity incl. none: unless the decoder reported a genuine "
+                  "decoding error, what the dispatcher handed to the handler is a prefix of the messages completed on the writer side as told by the return values of "
+                  "mpt_stream_push). "
                   "Tied to the code by differential execution of the same ring-level model (state compared after every operation) on rings of many capacities/offsets "
                   "with arbitrary wire cuts incl. single-byte delivery, decided against the specification 'received = sent'")
-    level_note = ("partial: the transport between the rings is not in the theorems yet: the mptio stream glue (mpt_stream_push/flush/poll/dispatch) has a mechanism model "
-                  "(GlueRun.v) that is tied to the code by differential execution with scripted transfers, but the theorems are stated for the ring-level histories it is "
-                  "composed of (three defects were found in the glue and repaired); the liveness theorems "
-                  "take the frame bytes as already wired into the reader ring (partial frames: safety only); a genuine decoding error ends the reader history of the "
-                  "safety theorem. Theorems closed under the global context.")
-    technique = "Coq theorems: ring-level writer and reader histories refine the stream-level codec invariants, end-to-end composition (delivered is a prefix of sent); specification-level differential check of the ring-level mechanism model"
+    level_note = ("partial: (1) liveness of the stream glue (a drain delivers everything) is decided against the specification only; it is proved for the ring-level reader "
+                  "protocol 'receive, enlarge by what is missing, receive' (C02_ring_round_delivers), whereas mpt_stream_dispatch enlarges in steps of 64 bytes per call; "
+                  "(2) partially arrived frames: safety only (that the decoder never reports an error on a proper prefix of an accepted frame is not a theorem, so the glue "
+                  "theorem carries the condition 'no genuine decoding error so far'); (3) not modelled: poll() paths with a timeout, POLLOUT handling, memory-mapped and text-mode "
+                  "streams. The glue model is tied to the code by differential execution with scripted transfers (three defects were found in the glue and repaired). "
+                  "Theorems closed under the global context.")
+    technique = "Coq theorems: the stream glue refines ring-level writer and reader histories, which refine the stream-level codec invariants; end-to-end safety (delivered is a prefix of sent) and ring-level liveness; mechanism-level differential check of the glue and ring models against the code"
     coq_dir = "Cobs"
     coq_deps = ("C13",)
     propfile = "Properties_C02.v"
